@@ -26,6 +26,8 @@ class FiniteEval:
     def __init__(self, atom=None, counters=(), lists=()):
         self.atom = atom or (lambda n, env: NOATOM)
         self.cmp_hook = None
+        self.resolver = None
+        self.depth = 0
         self.counters = set(counters)
         self.lists = set(lists)
         self.actions = []
@@ -179,8 +181,44 @@ class FiniteEval:
             raise Raises('TypeError: ordering comparison with None')
         raise Unknown('ordering on %r, %r' % (a, b))
 
+    def call_function(self, fnode, args, kwargs=None, selfval=None):
+        """Evaluate a (pure, loop-free) repository helper on abstract arguments."""
+        if self.depth > 6:
+            raise Unknown('helper nesting too deep')
+        params = [a.arg for a in fnode.args.args]
+        env2 = {}
+        if params and params[0] == 'self':
+            env2['self'] = selfval if selfval is not None else ('obj', 'self')
+            params = params[1:]
+        for p, a in zip(params, args):
+            env2[p] = a
+        for k, v in (kwargs or {}).items():
+            env2[k] = v
+        defaults = fnode.args.defaults
+        for p, d in zip(reversed(fnode.args.args), reversed(defaults)):
+            if p.arg not in env2:
+                env2[p.arg] = self.ev(d, {})
+        self.depth += 1
+        try:
+            try:
+                self.run(fnode.body, env2)
+            except Stop as st:
+                if st.kind == 'return':
+                    return st.value
+                raise Unknown('helper %s leaves with %s' % (fnode.name, st.kind))
+        finally:
+            self.depth -= 1
+        return None
+
     def call(self, n, env):
         f = n.func
+        if self.resolver is not None:
+            nm = f.id if isinstance(f, ast.Name) else (f.attr if isinstance(f, ast.Attribute) and isinstance(f.value, ast.Name) and f.value.id == 'self' else None)
+            fnode = self.resolver(nm) if nm else None
+            if fnode is not None and not (isinstance(f, ast.Name) and nm in env):
+                args = [self.ev(a, env) for a in n.args]
+                kwargs = {k.arg: self.ev(k.value, env) for k in n.keywords}
+                return self.call_function(fnode, args, kwargs, env.get('self'))
         if isinstance(f, ast.Name):
             args = [self.ev(a, env) for a in n.args]
             if f.id == 'str' and len(args) == 1:
@@ -206,6 +244,15 @@ class FiniteEval:
                 return None
             base = self.ev(f.value, env)
             args = [self.ev(a, env) for a in n.args]
+            if isinstance(base, str) and f.attr == 'format' and not n.keywords:
+                parts = base.split('{}')
+                if len(parts) == len(args) + 1 and '{' not in ''.join(parts) and '}' not in ''.join(parts):
+                    v = parts[0]
+                    for a, rest in zip(args, parts[1:]):
+                        v = self.binop(ast.Add(), v, self.tostr(a))
+                        v = self.binop(ast.Add(), v, rest)
+                    return v
+                raise Unknown('format string ' + base)
             if isinstance(base, tuple) and base and base[0] == 'tok':
                 p, s = base[1], base[2]
                 if f.attr == 'replace' and len(args) == 2 and all(isinstance(a, str) for a in args):
